@@ -3,6 +3,7 @@
 package main
 
 import (
+	"context"
 	"crypto"
 	"encoding/base64"
 	"fmt"
@@ -12,8 +13,11 @@ import (
 	"time"
 
 	"github.com/miekg/dns"
+	"github.com/semihalev/sdns/config"
+	"github.com/semihalev/sdns/internal/mock"
 	"github.com/semihalev/sdns/internal/verif/l3"
 	"github.com/semihalev/sdns/internal/verif/vlib"
+	"github.com/semihalev/sdns/middleware"
 	"github.com/semihalev/sdns/middleware/resolver"
 )
 
@@ -151,7 +155,13 @@ func sysNew(f []string) vlib.Res {
 	s.srv["plain"] = pl.Servers[0]
 	pl.Add("www.plain.test. 300 IN A 192.0.2.40")
 	s.noAnchor = spec["anchors"] == "f"
-	s.p = l3.NewPipe(w, l3.PipeOpts{DNSSEC: true, NoRootKeys: s.noAnchor})
+	qmin := 0
+	if spec["qmin"] != "" {
+		qmin = vlib.Atoi(spec["qmin"])
+	}
+	s.p = l3.NewPipe(w, l3.PipeOpts{DNSSEC: true, NoRootKeys: s.noAnchor, Tweak: func(cfg *config.Config) {
+		cfg.QnameMinLevel = qmin // RFC 7816: the minimised questions take the retry / referral routes of resolve()
+	}})
 	s.evil = poolPair(1500, "zone.test.", 256)
 	return vlib.Res{Impl: "ok"}
 }
@@ -302,7 +312,19 @@ func (s *sysWorld) apply(t tamper, q dns.Question, m *dns.Msg) *dns.Msg {
 							old = sg
 						}
 					}
+					// the zone's key only ever signs what the zone publishes: an RRset an earlier script
+					// altered keeps its old (now wrong) signature
+					genuine := true
+					for _, rr := range set {
+						if rr.Header().Rrtype != dns.TypeNSEC && !s.w.Published(rr) {
+							genuine = false
+						}
+					}
 					if old == nil {
+						continue
+					}
+					if !genuine {
+						out = append(out, old)
 						continue
 					}
 					toSign := set
@@ -465,6 +487,26 @@ func (s *sysWorld) apply(t tamper, q dns.Question, m *dns.Msg) *dns.Msg {
 			exp.Header().Name = q.Name
 			m.Answer, m.Ns = []dns.RR{exp, sg}, nil
 			m.Rcode = dns.RcodeSuccess
+			// what is offered as the no-closer-match proof: nothing, or an UNSIGNED NSEC whose span straddles the
+			// next-closer name — owned outside the signer zone (exempt from the signature check as a "referral
+			// remnant"), inside it, or outside with a made-up RRSIG
+			mk := func(owner, next string) dns.RR {
+				return &dns.NSEC{Hdr: dns.RR_Header{Name: owner, Rrtype: dns.TypeNSEC, Class: dns.ClassINET, Ttl: 120},
+					NextDomain: next, TypeBitMap: []uint16{dns.TypeA, dns.TypeRRSIG, dns.TypeNSEC}}
+			}
+			switch t.arg {
+			case "foreign":
+				m.Ns = []dns.RR{mk("a.test.", "zz.test.")}
+			case "foreign-root":
+				m.Ns = []dns.RR{mk("a.", "zz.")}
+			case "inzone":
+				m.Ns = []dns.RR{mk("a.w.zone.test.", "zz.w.zone.test.")}
+			case "foreignsig":
+				n := mk("a.test.", "zz.test.")
+				m.Ns = []dns.RR{n, &dns.RRSIG{Hdr: dns.RR_Header{Name: "a.test.", Rrtype: dns.TypeRRSIG, Class: dns.ClassINET, Ttl: 120},
+					TypeCovered: dns.TypeNSEC, Algorithm: dns.ECDSAP256SHA256, Labels: 2, OrigTtl: 120, Expiration: uint32(now.Add(time.Hour).Unix()),
+					Inception: uint32(now.Add(-time.Hour).Unix()), KeyTag: 4242, SignerName: "test.", Signature: base64.StdEncoding.EncodeToString(seedBytes(4243, 64))}}
+			}
 		}
 	case "ds-childside":
 		// a DS query (parent side of the cut) is answered with the CHILD's own, genuinely signed NODATA for
@@ -822,10 +864,18 @@ func sysQuery(f []string) vlib.Res {
 	if strings.Contains(f[4], "t") {
 		fl.Proto = "tcp"
 	}
+	if strings.Contains(f[4], "h") {
+		fl.Proto = "doh"
+	}
 	if fl.NoEDNS {
 		fl.DO = false
 	}
-	r := sys.p.Query(name, qt, fl)
+	var r *dns.Msg
+	if strings.Contains(f[4], "w") {
+		r = sys.queryWire(name, qt, fl) // the server's own ingress shape: undecoded request, byte-sink writer
+	} else {
+		r = sys.p.Query(name, qt, fl)
+	}
 	tr := sys.w.Truth(name, qt)
 	tags := []string{"nt", "st:" + tr.Status, "k:" + tr.Kind}
 	if sys.tampered {
@@ -953,6 +1003,47 @@ func sysQuery(f []string) vlib.Res {
 	return vlib.Res{Impl: impl, Oracle: or, Tags: strings.Join(tags, ",")}
 }
 
+// queryWire sends the query the way the UDP/TCP listeners do: parsed from the wire, never decoded
+// unless a handler asks, answered through a writer that accepts packed bodies.
+var wireID uint16
+
+func (s *sysWorld) queryWire(name string, qtype uint16, f l3.Flags) *dns.Msg {
+	req := new(dns.Msg)
+	req.SetQuestion(dns.Fqdn(name), qtype)
+	wireID += 7919
+	req.Id = wireID
+	req.RecursionDesired = true
+	req.CheckingDisabled = f.CD
+	req.AuthenticatedData = f.AD
+	if !f.NoEDNS {
+		req.SetEdns0(1232, f.DO)
+	}
+	raw, err := req.Pack()
+	if err != nil {
+		panic(err)
+	}
+	var rq middleware.Request
+	if !rq.ParseWire(raw, time.Now(), nil) {
+		panic("ParseWire refused a packed query")
+	}
+	proto := f.Proto
+	if proto == "" {
+		proto = "udp"
+	}
+	w := mock.NewWriter(proto, "10.1.2.3:4242")
+	ch := s.p.P.NewChain()
+	defer s.p.P.PutChain(ch)
+	ch.ResetWire(w, &rq)
+	ch.AllowDirectPack()
+	ctx, cancel := context.WithTimeout(context.Background(), s.p.Cfg.QueryTimeout.Duration+2*time.Second)
+	defer cancel()
+	ch.Next(ctx)
+	if !w.Written() {
+		return nil
+	}
+	return w.Msg()
+}
+
 // onlyTamper: every script installed in this world is of the given kind.
 func onlyTamper(s *sysWorld, kind string) bool {
 	n := 0
@@ -991,7 +1082,8 @@ func genL3(r *vlib.R, emit func(string)) int {
 	// unsigned cut without seeing a referral and answers SERVFAIL although nothing is wrong (fail-closed
 	// over-strictness outside this property; see notes/C01.md).
 	zsame := vlib.B(zone != "i" && r.Chance(1, 4))
-	e(fmt.Sprintf("l3 new alg=%d zone=%s isigned=%s zsame=%s sub=%s same=%s keys=%s anchors=%s", alg, zone, isigned, zsame, subk, same, keys, anchors))
+	qmin := vlib.Pick(r, []int{0, 0, 0, 1, 2, 3, 5})
+	e(fmt.Sprintf("l3 new alg=%d zone=%s isigned=%s zsame=%s sub=%s same=%s keys=%s anchors=%s qmin=%d", alg, zone, isigned, zsame, subk, same, keys, anchors, qmin))
 
 	qs := []sysQ{{"www.zone.test.", "A"}, {"alias.zone.test.", "A"}, {"xalias.zone.test.", "A"}, {"ialias.zone.test.", "A"},
 		{"x.w.zone.test.", "TXT"}, {"a.b.w.zone.test.", "TXT"}, {"real.w.zone.test.", "TXT"}, {"real.w.zone.test.", "TXT"}, {"txt.zone.test.", "TXT"}, {"nope.zone.test.", "A"},
@@ -1002,7 +1094,7 @@ func genL3(r *vlib.R, emit func(string)) int {
 		qs = append(qs, sysQ{"www.sub.zone.test.", "A"}, sysQ{"alias.sub.zone.test.", "A"}, sysQ{"txt.sub.zone.test.", "TXT"},
 			sysQ{"nope.sub.zone.test.", "A"}, sysQ{"sub.zone.test.", "DS"})
 	}
-	flagSets := []string{"d", "d", "d", "d", "-", "-", "a", "dc", "c", "n", "n", "da", "dca", "dt", "ac", "at"}
+	flagSets := []string{"d", "d", "d", "d", "-", "-", "a", "dc", "c", "n", "n", "da", "dca", "dt", "ac", "at", "dw", "dw", "w", "aw", "dwt", "dcw", "nw", "dh", "ah", "h"}
 	var focus []sysQ // names whose resolution crosses a scripted server
 	ask := func(k int) {
 		for i := 0; i < k; i++ {
@@ -1015,6 +1107,8 @@ func genL3(r *vlib.R, emit func(string)) int {
 			fl2 := fl
 			if r.Chance(1, 3) {
 				fl2 = vlib.Pick(r, flagSets) // the cached copy is asked for with other flags
+			} else if r.Chance(1, 3) && !strings.Contains(fl2, "w") {
+				fl2 += "w" // … or over the byte path (cache-contained wire serving / wire chase)
 			}
 			e(fmt.Sprintf("l3 q %s %s %s", q.name, q.typ, fl2))
 		}
@@ -1045,7 +1139,8 @@ func genL3(r *vlib.R, emit func(string)) int {
 		{"addrr", "-", "data"}, {"nodata-forge", "-", "data"}, {"nxdomain-forge", "-", "data"}, {"forge-answer", "-", "data"},
 		{"evilkey", "plain", "all"}, {"evilkey", "keepsig", "all"}, {"evilkey", "replace", "all"},
 		{"replay-old", "-", "data"}, {"replay-old", "-", "data"}, {"ds-to-soa", "-", "all"}, {"ds-to-nsec", "-", "all"}, {"ds-to-nssig", "-", "all"},
-		{"wildcard-replay", "-", "data"}, {"wildcard-replay", "-", "data"}, {"ds-childside", "-", "all"},
+		{"wildcard-replay", "-", "data"}, {"wildcard-replay", "foreign", "data"}, {"wildcard-replay", "foreign", "data"}, {"wildcard-replay", "foreign-root", "data"},
+		{"wildcard-replay", "inzone", "data"}, {"wildcard-replay", "foreignsig", "data"}, {"ds-childside", "-", "all"},
 		{"rcode", "1", "data"}, {"rcode", "4", "data"}, {"rcode", "5", "data"}, {"rcode", "9", "data"}, {"rcode", "3", "all"},
 		{"dname-retarget", "evil", "data"}, {"dname-retarget", "evil", "data"}, {"dname-retarget", "insert", "data"}, {"ds-replay-nsec", "-", "all"},
 		{"padkey", "denyds", "all"}, {"padkey", "data", "all"}, {"padkey", "deny", "all"}, {"padkey", "data", "all"}}
